@@ -123,9 +123,11 @@ func C16(c *core.Ctx) error {
 	os.WriteFile(probeFile, []byte("file content\nline2\n"), 0o644)
 	missing := filepath.Join(c.Scratch, "missing.txt")
 
-	strs := []string{"", "a", "A", "ab", "aB", "a b", "a,b", ",a,", "aa", "é", "Éa", "ß", "\xff", "id", "Id", "ID", "http", "1a", "_a"}
+	strs := []string{"", "a", "A", "ab", "aB", "a b", "a,b", ",a,", "aa", "é", "Éa", "ß", "\xff", "id", "Id", "ID", "http", "1a", "_a",
+		// white space inside and outside ASCII at both ends (no-break space, next line, ideographic space)
+		" \u00a0a\u0085 ", "\u3000\ta b\v\u2003"}
 	if !core.Quick(c.Tier) {
-		strs = append(strs, "helloWorld", "hello_world", "a.b", "/a/b/", "a\xffb", "éé", "url", "Url", ".", "a\n")
+		strs = append(strs, "\u0085", "\u00a0 x", "x \u2028", "helloWorld", "hello_world", "a.b", "/a/b/", "a\xffb", "éé", "url", "Url", ".", "a\n")
 	}
 	ints := []int{-2, -1, 0, 1, 2, 3}
 	var cases []c16case
